@@ -11,6 +11,7 @@ mod p01;
 mod p02;
 mod p03;
 mod p05;
+mod p07;
 mod p12;
 mod p16;
 mod refimpl;
@@ -35,6 +36,7 @@ macro_rules! dispatch {
             "C02" => $f::<p02::C02>($($arg),*),
             "C03" => $f::<p03::C03>($($arg),*),
             "C05" => $f::<p05::C05>($($arg),*),
+            "C07" => $f::<p07::C07>($($arg),*),
             "C12" => $f::<p12::C12>($($arg),*),
             "C16" => $f::<p16::C16>($($arg),*),
             other => {
